@@ -1352,6 +1352,13 @@ def _check_wallet_inner(ctx, case):
         pm = add('wallet.public_master', lambda: w.public_master())
         arts.pop()
         pms = pm if isinstance(pm, list) else [pm] if pm is not None else []
+        # ... and asked with the arguments spelled out (own witness type, account, as_private=False): public all the same
+        for nm_, kw_ in (('wallet.public_master.witness_type', {'witness_type': spec['witness_type']}),
+                         ('wallet.public_master.all_args', {'account_id': 0, 'witness_type': spec['witness_type'],
+                                                            'as_private': False})):
+            pmx = add(nm_, lambda kw_=kw_: w.public_master(**kw_))
+            arts.pop()
+            pms += pmx if isinstance(pmx, list) else [pmx] if pmx is not None else []
         for p in pms:
             pubobjs.append(('wallet.public_master', p))
             add('wallet.public_master.repr', lambda p=p: repr(p))
